@@ -17,6 +17,64 @@ SlotOK(H, s) ==
 SlotFails(H, slots) == {k \in DOMAIN slots : ~SlotOK(H, slots[k])}
 Sound(H, slots) == SlotFails(H, slots) = {}
 
+(* ---- attribution of a failing "ret" slot to a documented mechanism of pytype ------------------- *)
+(* pytype derives the signature a stub declares for a function from ONE analysis of its body made    *)
+(* after the module body has been executed to its end: global names the body reads have the values    *)
+(* of the module's FINAL state.  A value returned by a module-level call made while such a name held  *)
+(* another value need not be covered.  The mechanism can explain a failing slot only if               *)
+(*   ReadsRebound: some module-level name the function can read (directly, or through the functions,  *)
+(*   lambdas, classes and variables it reaches) is bound again by the statement that makes the call   *)
+(*   or by a later one (program terms of ProgGen.tla; `site` = index of the calling statement), and   *)
+(*   the counterfactual holds: pytype's stub for the program cut off right before the calling         *)
+(*   statement (whose final state is the state the call saw) declares a return type that admits the   *)
+(*   value (FinalStateSlotOK below; the driver supplies that type).                                   *)
+RECURSIVE FreeE(_)
+FreeE(e) ==
+  CASE e[1] = "lit" -> {}
+    [] e[1] = "name" -> {e[2]}
+    [] e[1] \in {"list", "tuple", "set"} -> UNION {FreeE(e[2][k]) : k \in DOMAIN e[2]}
+    [] e[1] = "dict" -> FreeE(e[3])
+    [] e[1] \in {"add", "or", "and", "cmp"} -> FreeE(e[2]) \cup FreeE(e[3])
+    [] e[1] = "cond" -> FreeE(e[2]) \cup FreeE(e[3]) \cup FreeE(e[4])
+    [] e[1] \in {"not", "isnone", "sub"} -> FreeE(e[2])
+    [] e[1] = "isinst" -> FreeE(e[2]) \cup {e[3]}
+    [] e[1] = "bcall" -> FreeE(e[3])
+    [] e[1] \in {"attr", "meth"} -> FreeE(e[2])
+    [] e[1] = "call" -> {e[2]} \cup UNION {FreeE(e[3][k]) : k \in DOMAIN e[3]}
+    [] e[1] = "lambda" -> FreeE(e[2]) \ {"p1"}
+    [] e[1] = "lcomp" -> (FreeE(e[2]) \ {"v"}) \cup FreeE(e[3])
+
+(* names a statement reads, when executed or when what it defines is called later *)
+StmtReads(s) ==
+  CASE s[1] = "assign" -> FreeE(s[3])
+    [] s[1] = "if" -> FreeE(s[2]) \cup FreeE(s[4]) \cup FreeE(s[5])
+    [] s[1] = "ifonly" -> FreeE(s[2]) \cup FreeE(s[4]) \cup {s[3]}
+    [] s[1] = "try" -> FreeE(s[3]) \cup FreeE(s[4])
+    [] s[1] = "def" -> (FreeE(s[4]) \cup FreeE(s[5]) \cup FreeE(s[6])) \ {"p1", "p2"}
+    [] s[1] = "class" ->
+         SeqToSet(s[3])
+         \cup UNION {FreeE(s[4][k][2]) : k \in DOMAIN s[4]}
+         \cup (UNION {FreeE(s[6][k][2]) : k \in DOMAIN s[6]} \ {"p1", "self"})
+         \cup (UNION {FreeE(s[7][k][2]) : k \in DOMAIN s[7]} \ {"self"})
+
+Binds(s) == IF s[1] \in {"if", "ifonly"} THEN s[3] ELSE s[2]
+
+(* names reachable from the names in R: closed under "read by a statement that binds a reached name" *)
+RECURSIVE ReachFrom(_, _)
+ReachFrom(prog, R) ==
+  LET R2 == R \cup UNION {StmtReads(prog[k]) : k \in {j \in DOMAIN prog : Binds(prog[j]) \in R}}
+  IN IF R2 = R THEN R ELSE ReachFrom(prog, R2)
+
+ReadsRebound(prog, f, site) ==
+  \E k \in site .. Len(prog) : Binds(prog[k]) \in ReachFrom(prog, {f})
+
+(* s.t is here the return type declared by the stub of the program cut off before statement s.site *)
+FinalStateSlotOK(H, prog, s) ==
+  /\ s.k = "ret" /\ s.site >= 1
+  /\ ReadsRebound(prog, s.root, s.site)
+  /\ SlotOK(H, s)
+FinalStateFails(H, prog, slots) == {k \in DOMAIN slots : ~FinalStateSlotOK(H, prog, slots[k])}
+
 (* the run as a state machine: phases in order, the verdict only at the end *)
 Phases == <<"generated", "executed", "inferred", "judged">>
 =============================================================================
